@@ -266,6 +266,8 @@ def _kernels():
     reg('raise_wrapper_thin_ndim', ['fl'], lambda I: mh.thin(np.zeros((3, 3, 3), bool)))
     reg('raise_native_type', ['fl'], lambda I: mahotas._convolve.convolve(g(I, 'fl'), np.ones((3, 3), np.float32),
                                                                           np.empty_like(g(I, 'fl')), 0))
+    from . import c12_extra            # the other properties' functions (used by harness/foundation/concurrent.py)
+    c12_extra.register(reg, g, mh, np)
     return K
 
 
